@@ -60,7 +60,30 @@ def fire_rows(case):
     return [r for r in rec.rows.values() if qa.row_in_model(r)]
 
 
-STAGES = {"firing-rows": (fire_rows, "RulesTrace")}
+def chain_rows(case):
+    """Walk one chain of early/late/very modifiers through the registered ruleEarlyLatePOD / rulePOD / ruleLatentPOD of the
+    tree (real tokens from the lexicon's modifier and part-of-day words) - every step is a row for RulesTrace."""
+    from . import common
+    ts = datetime(2018, 3, 7, 12, 43)
+    rows = []
+    ptok = common.token("rulePOD", case["pod_word"])
+    rows.append(common.call_rule("rulePOD", ts, [ptok]))
+    cur = qa.RULES["rulePOD"][0](ts, ptok)
+    for w in reversed(case["mods"]):
+        if cur is None:
+            break
+        mtok = common.token("ruleEarlyLatePOD", w)
+        rows.append(common.call_rule("ruleEarlyLatePOD", ts, [mtok, cur]))
+        try:
+            cur = qa.RULES["ruleEarlyLatePOD"][0](ts, mtok, cur)
+        except Exception:  # noqa: BLE001
+            cur = None
+        if cur is not None:
+            rows.append(common.call_rule("ruleLatentPOD", ts, [cur]))
+    return rows
+
+
+STAGES = {"firing-rows": (fire_rows, "RulesTrace"), "modifier-chains": (chain_rows, "RulesTrace")}
 
 
 def run(ctx):
@@ -95,6 +118,17 @@ def run(ctx):
     for r in v.rejects:
         ctx.violation({"stage": "firing-rows", "clause": r["clause"], "rule": r["obs"]["rule"]}, "rule row rejected: %s %s" % (r["obs"]["rule"], r["clause"]),
                       {"stage": "firing-rows", "row": r["obs"], "expected": r["detail"]})
+    # every chain of modifiers (depth <= 4; thorough 5) on every part of day, through the real productions
+    import itertools
+    mods = {"early": "early", "late": "late", "veryearly": "very early", "verylate": "sehr spät"}
+    podw = {p: [f for f in G.LEX["pod"][p] if f not in ("early", "late", "früh", "spät", "very early", "very late", "sehr früh", "sehr spät")][0]
+            for p in qa.PODS if p in G.LEX["pod"] and [f for f in G.LEX["pod"][p] if f not in ("early", "late", "früh", "spät", "very early", "very late", "sehr früh", "sehr spät")]}
+    ccases = []
+    for p, w in podw.items():
+        for n in range(1, 5 if ctx.quick else 6):
+            for ch in itertools.product(mods.values(), repeat=n):
+                ccases.append({"pod_word": w, "mods": list(ch)})
+    core.run_stage(ctx, "modifier-chains", ccases, chain_rows, "RulesTrace", sig_keys=(), nontrivial=lambda c: (c["pod_word"], tuple(c["mods"])))
     ob = export(fired)
     v = ctx.judge("RuleBase", [ob])
     for r in v.rejects:
